@@ -48,7 +48,7 @@ H5_ALPHAS = ['ascii', 'ascii', 'num', 'punct', 'slash', 'unicode', 'long',
              'natsort', 'ws']
 # metadata categories allowed where the table travels to HDF5 (C01 grammar):
 # indices into values.MD_CATS (note 'ph' float, 'depth' int, 'flag' bool)
-H5_CATS = [0, 1, 2, 3, 4, 5, 6, 8]
+H5_CATS = [0, 1, 2, 3, 4, 5, 6, 8, 14, 15]
 
 PROFILES = {
     'C05': {
@@ -113,7 +113,7 @@ PROFILES = {
     'C13': {
         'name': 'C13', 'ops': _w(['transform', 'norm', 'pa', 'rankdata'], 4.0),
         'must_ops': ['transform', 'norm', 'pa', 'rankdata', 'sort_order'],
-        'vfams': ['exact', 'pos', 'pos', 'counts', 'wild'],
+        'vfams': ['exact', 'pos', 'pos', 'counts', 'wild', 'tiny'],
         'perturb': _w(['flip', 'rebuild', 'sortinv', 'fulldepth',
                        'identity'], 2.0, ALL_PERTURB, 0.5),
         'kinds': {'op': 10, 'perturb': 5, 'read': 2, 'probe': 0.5},
@@ -158,10 +158,10 @@ for pid, probes, extra in (
     }, **extra)
 PROFILES['C02'] = {
     'name': 'C02', 'ops': {o: 1.0 for o in ALL_OPS},
-    'md_cats': list(range(14)),
+    'md_cats': list(range(17)),
     'alphas': ['ascii', 'num', 'punct', 'slash', 'unicode', 'long', 'ctrl',
                'ctrl', 'ws'], 'ctrl_md': 0.6,
-    'vfams': ['wild', 'wild', 'exact', 'counts'],
+    'vfams': ['wild', 'wild', 'exact', 'counts', 'tiny'],
     'kinds': {'op': 5, 'perturb': 4, 'read': 1, 'probe': 3.0},
     'lens': [4, 6, 10, 16, 24], 'probes': {'c02_json': 1.0},
 }
@@ -169,8 +169,9 @@ PROFILES['C03'] = {
     'name': 'C03', 'ops': {o: 1.0 for o in ALL_OPS},
     'alphas': ['ascii', 'num', 'punct', 'slash', 'unicode', 'long',
                'natsort'],
-    'vfams': ['wild', 'wild', 'exact', 'counts'],
+    'vfams': ['wild', 'wild', 'exact', 'counts', 'tiny'],
     'kinds': {'op': 5, 'perturb': 4, 'read': 1, 'probe': 3.0},
+    'md_cats': list(range(10)) + [14, 15, 16, 16],
     'lens': [4, 6, 10, 16, 24], 'probes': {'c03_tsv': 1.0},
 }
 PROFILES['C20'] = {'name': 'C20', 'engine': 'c20'}
